@@ -573,13 +573,30 @@ func runC06(r *simcore.Run) {
 			if n == 0 {
 				continue
 			}
+			// "its exact share of the lookups performed": the n lookups are n consecutive slots of the ring, wherever
+			// the walk started and whichever way it goes round (today's picker starts at slot 0 and goes up; a picker
+			// that walks the other way or starts elsewhere hands out exact shares just as well)
+			L := len(ri.Ring)
+			key := func(i int) string {
+				return strings.TrimSuffix(strings.TrimPrefix(ri.Ring[((i%L)+L)%L], "http://"), "/")
+			}
 			want := map[string]int{}
 			for i := 0; i < n; i++ {
-				u := ri.Ring[i%len(ri.Ring)]
-				want[strings.TrimSuffix(strings.TrimPrefix(u, "http://"), "/")]++
+				want[key(i)]++
 			}
-			if fmt.Sprint(sortedCounts(got)) != fmt.Sprint(sortedCounts(want)) {
-				r.Fail("rr-share", "multiset", "route %s (table v%d): %d lookups were distributed %v, the ring prescribes %v", ri.Path, v, n, sortedCounts(got), sortedCounts(want))
+			first := fmt.Sprint(sortedCounts(want))
+			ok := fmt.Sprint(sortedCounts(got)) == first
+			for s := 1; s < L && !ok; s++ {
+				// slide the window of n slots by one: slot s-1 leaves, slot s-1+n enters
+				want[key(s-1)]--
+				if want[key(s-1)] == 0 {
+					delete(want, key(s-1))
+				}
+				want[key(s-1+n)]++
+				ok = fmt.Sprint(sortedCounts(got)) == fmt.Sprint(sortedCounts(want))
+			}
+			if !ok {
+				r.Fail("rr-share", "multiset", "route %s (table v%d): %d lookups were distributed %v; no run of %d consecutive slots of the ring gives that (from slot 0: %v)", ri.Path, v, n, sortedCounts(got), n, first)
 			}
 		}
 	}
